@@ -118,6 +118,9 @@ JOBS = [
     Job('Geodesic.A3coeff', 'Geodesic::A3coeff', ['C01', 'C13'], unwind=9, timeout=300, description='series coefficient table: consumed exactly, member array filled exactly'),
     Job('Geodesic.C3coeff', 'Geodesic::C3coeff', ['C01', 'C13'], unwind=9, timeout=300, description='series coefficient table: consumed exactly, member array filled exactly'),
     Job('Geodesic.C4coeff', 'Geodesic::C4coeff', ['C01', 'C13'], unwind=9, timeout=300, description='series coefficient table: consumed exactly, member array filled exactly'),
+    Job('Geodesic.C3f', 'Geodesic::C3f', ['C01', 'C13', 'C14'], unwind=9, timeout=300, description='series coefficient evaluation from the member table: consumed exactly, output array in bounds'),
+    Job('Geodesic.C4f', 'Geodesic::C4f', ['C01', 'C13', 'C14'], unwind=9, timeout=300, description='series coefficient evaluation from the member table: consumed exactly, output array in bounds'),
+    Job('Geodesic.A3f', 'Geodesic::A3f', ['C13', 'C14'], unwind=9, timeout=300, description='polynomial over the member table: reads in bounds, no writes'),
     Job('Geodesic.A1m1f', 'Geodesic::A1m1f', ['C01', 'C13', 'C14'], unwind=9, timeout=300, description='series coefficient evaluation: table reads in bounds'),
     Job('Geodesic.A2m1f', 'Geodesic::A2m1f', ['C01', 'C13', 'C14'], unwind=9, timeout=300, description='series coefficient evaluation: table reads in bounds'),
     Job('Geodesic.C1f', 'Geodesic::C1f', ['C01', 'C13', 'C14'], unwind=9, timeout=300, description='series coefficient evaluation: table consumed exactly, output array in bounds'),
@@ -172,10 +175,20 @@ JOBS = [
     Job('Geocentric.Rotation', 'Geocentric::Rotation', ['C07', 'C13', 'C14'], description='rotation matrix: frame and copied entries'),
     Job('Geocentric.IntReverse', 'Geocentric::IntReverse', ['C07', 'C13', 'C14'], replace=['Math::atan2d', 'Geocentric::Rotation'], timeout=900, sat='cadical',
         description='geocentric -> geodetic: ranges of latitude and longitude, frame, optional matrix pointer'),
+    Job('GeodesicLine.LineInit', 'GeodesicLine::LineInit', ['C12', 'C01', 'C13'], const_classes=['<Geodesic'],
+        inline=['Math::AngRound'], replace=['Math::sincosd', 'Geodesic::A1m1f', 'Geodesic::C1f', 'Geodesic::C1pf', 'Geodesic::A2m1f', 'Geodesic::C2f', 'Geodesic::SinCosSeries',
+                 'Geodesic::C3f', 'Geodesic::C4f', 'Geodesic::A3f', 'GeodesicLineExact::LineInit'],
+        description='line constants: capability word, stored point, third point undefined'),
     Job('GeodesicLine.SetDistance', 'GeodesicLine::SetDistance', ['C12'], const_classes=['<Geodesic'], replace=['GeodesicLine::GenPosition'], inline=['Math::NaN'],
         description='third point by distance: NaN arc when the line lacks the capability'),
     Job('GeodesicLine.SetArc', 'GeodesicLine::SetArc', ['C12'], const_classes=['<Geodesic'], replace=['GeodesicLine::GenPosition'],
         description='third point by arc: distance stays NaN when the line lacks the capability'),
+    Job('GeodesicLineExact.LineInit', 'GeodesicLineExact::LineInit', ['C12', 'C01', 'C13'], const_classes=['<GeodesicExact'], inline=['Math::AngRound'],
+        replace=['Math::sincosd', ('EllipticFunction::Reset', dict(arity=4)), ('EllipticFunction::E', dict(arity=0)), ('EllipticFunction::D', dict(arity=0)), ('EllipticFunction::H', dict(arity=0)),
+                 'EllipticFunction::deltaE', 'EllipticFunction::deltaD', 'EllipticFunction::deltaH', ('DST::integral', dict(arity=4))],
+        rewrites=[(r'GeodesicExact::I4Integrand i4\([^;]*\);', ';'), (r'_cC4a\.resize\(_nC4\);', '_cC4a.p = (double*)__CPROVER_allocate((size_t)(_nC4) * sizeof(double), 0); _cC4a.n = _nC4;'),
+                  (r'g\._fft\.transform\(i4, _cC4a\.data\(\)\);', ';'), (r'_cC4a\.data\(\)', r'_cC4a.p')],
+        description='exact line constants: capability word, stored point, third point undefined, area-series buffer size'),
     Job('GeodesicLineExact.GenPosition', 'GeodesicLineExact::GenPosition', ['C12', 'C01', 'C13', 'C14'], const_classes=['<GeodesicExact'], timeout=900, sat='cadical',
         replace=['Math::sincosd', 'Math::atan2d', ('Math::AngNormalize', dict(ghost=False)), 'EllipticFunction::deltaE', 'EllipticFunction::deltaEinv',
                  'EllipticFunction::deltaD', 'EllipticFunction::deltaH', 'EllipticFunction::Delta', ('DST::integral', dict(arity=4))],
